@@ -128,6 +128,8 @@ func (vm *VM) resetPath(prefix []Decision) {
 	vm.mapIDs = 0
 	vm.regions = nil
 	vm.stubLog = nil
+	vm.stdout, vm.stderr, vm.stdin, vm.vfs = nil, nil, nil, nil
+	vm.onceSyms = nil
 	vm.frozenOn = false
 	vm.frozen, vm.frozenMaps = nil, nil
 }
